@@ -80,6 +80,8 @@ JSInt(r) ==
     LET o == r.out a == r.a b == r.b IN
     /\ Clause(i, "sint.finite", o.finite)
     /\ Clause(i, "sint.ordered", o.min = IvMin(a, b) /\ o.max = IvMax(a, b) /\ o.try_ok)
+    \* the fallible constructor orders its bounds exactly like the infallible one
+    /\ Clause(i, "sint.try_new_ordered", o.try_ok => (o.tmin = IvMin(a, b) /\ o.tmax = IvMax(a, b)))
     /\ Clause(i, "sint.shape", Len(o.contains) = Len(r.xs) /\ Len(o.clamp) = Len(r.xs) /\ Len(o.overlaps) = Len(r.others)
                                /\ Len(o.contains_iv) = Len(r.others) /\ Len(o.inter) = Len(r.others))
     /\ (Len(o.contains) = Len(r.xs) /\ Len(o.clamp) = Len(r.xs)) =>
